@@ -68,6 +68,7 @@ from dask_array._core_utils import (
     cached_max,
     check_if_handled_given_other,
     finalize,
+    snapshot_collections,
 )
 
 __all__ = [
@@ -709,7 +710,7 @@ class Array(DaskMethodsMixin):
         from dask_array.slicing import SetItem
 
         value_expr = value.expr if isinstance(value, Array) else value
-        y = new_collection(SetItem(self.expr, key, value_expr))
+        y = new_collection(SetItem(self.expr, snapshot_collections(key), value_expr))
         self._replace_expr(y.expr)
 
     @check_if_handled_given_other
